@@ -3,6 +3,7 @@ use crate::Fields;
 pub mod codec3;
 pub mod codec5;
 pub mod respq;
+pub mod selftest;
 pub mod topic;
 
 pub type Engine = fn(&Fields) -> Fields;
@@ -22,7 +23,7 @@ pub fn run_stream(
 ) -> bool {
     // async engines: all cases of the input run on one single-threaded ntex runtime
     let lines: Vec<String> = match name {
-        "respq" => {
+        "respq" | "selftest" => {
             let mut text = String::new();
             inp.read_to_string(&mut text).unwrap();
             text.lines().map(str::to_string).collect()
@@ -40,6 +41,7 @@ pub fn run_stream(
             let case = crate::parse_line(&line);
             let obs = match name.as_str() {
                 "respq" => respq::run_case(&case).await,
+                "selftest" => selftest::run_case(&case).await,
                 _ => unreachable!(),
             };
             r2.borrow_mut().push(crate::show_line(&obs));
